@@ -13,6 +13,8 @@ its LALR driver and the persistent mappings (not a hand-picked field list).
 """
 import copy
 import hashlib
+import os
+import sys
 import types
 
 from ..core import runner, snapshot, clone
@@ -30,7 +32,8 @@ EVAL_SRC = ['1 + 2', '[1,\n2]\n3', '1 $ 2', 'a = 1\nb = 2\nc = = 3', '(1', '1 +'
             'x = 1', 'x += 1', 'x', 'push(l, 1)', 'f = v => v + u', 'f(1)', 'map(l, v => v + u)', 'u', 'l', 'x = [l]; x[0]',
             'total = 41\nboost = = 2', 'total + 1', ('map(l, v => v * 2)', 4), 'u = 3',
             'a = 1 +\n2', '- 1', '[7]', '10 % 20', 'keys({2.5: "a"})', 'keys({2.50: "b"})', '{1: 1, 1.0: 2}', '1 / 3', '2 ** 0.5',
-            'round(1 / 0.0000000000000000000000000000000000000001 ** 99999999)', '0 ** 0', '(0 - 8) ** 0.5', '(0 - 2) ** 1.5 + 1', 'round(x9, 2)', 'round(float("inf"))', 'round(float("nan"), 2)', 'floor(float("-inf"))', 'int(float("nan"))', '10 ** 1000000000', 'len = 7; len']
+            'round(1 / 0.0000000000000000000000000000000000000001 ** 99999999)', '0 ** 0', '(0 - 8) ** 0.5', '(0 - 2) ** 1.5 + 1', 'round(x9, 2)', 'round(float("inf"))', 'round(float("nan"), 2)', 'floor(float("-inf"))', 'int(float("nan"))', '10 ** 1000000000', 'len = 7; len',
+            'str(h9) | len', '"s" + h9', 'pretty(h9)', 'join([h9], ",")', '{h9: 1}', 'int("1" + "0" * 5000) | str | len']
 NAMES_SRC = ['price * qty + fee(region)', 'alpha + beta ? gamma', 'a\n(b,\nc', '"s" # x', '%a b% . c ( d']
 NAMES_MODES = ['full', 'abandon1', 'unstarted', 'deferred']
 OMITTED_SRC = ['x = 1', 'x', 'x += 1', 'len = 7; len', 'len("ab")', 'u = 3', 'u', 'f = v => v + 1', 'f(1)', '"a  b" | len', '"a b" | len', 'pop([1, 2, 3])', '[1, 2] | push(3) | len']
@@ -69,6 +72,8 @@ def show(v, depth=0):
         return ['dict'] + [(k, show(x, depth + 1)) for k, x in v.items()]
     if callable(v):
         return 'function'
+    if isinstance(v, int) and not isinstance(v, bool) and v.bit_length() > 10000:
+        return f'int:{v.bit_length()} bits:{hashlib.sha1(hex(v).encode()).hexdigest()[:12]}'     # repr() is limited to 4300 digits
     if type(v).__module__.endswith('ast_ops'):
         return dump_obj(v)
     return f'{type(v).__name__}:{v!r}'
@@ -194,6 +199,18 @@ def module_state():
                         out.append((name, f'{k}.{ck}', repr(dump_obj(cv))[:300]))
     c = decimal.getcontext()
     out.append(('decimal', c.prec, c.rounding, c.Emin, c.Emax, c.capitals, c.clamp, tuple(sorted(str(t) for t, on in c.traps.items() if on))))
+    # interpreter-wide settings a library call could change for everybody after it
+    import locale
+    import warnings
+    out.append(('interpreter', 'int_max_str_digits', sys.get_int_max_str_digits()))
+    out.append(('interpreter', 'recursionlimit', sys.getrecursionlimit()))
+    out.append(('interpreter', 'switchinterval', sys.getswitchinterval()))
+    out.append(('interpreter', 'locale', locale.setlocale(locale.LC_ALL)))
+    out.append(('interpreter', 'warnings.filters', len(warnings.filters)))
+    out.append(('interpreter', 'sys.path', len(sys.path)))
+    out.append(('interpreter', 'environ', hashlib.sha1(repr(sorted(os.environ.items())).encode()).hexdigest()))
+    out.append(('interpreter', 'cwd', os.getcwd()))
+    out.append(('interpreter', 'trace/profile', repr(sys.gettrace()), repr(sys.getprofile())))
     return out
 
 
@@ -236,7 +253,7 @@ class World:
                 nk = act[2]
                 if nk == 'omitted':
                     return ('ok', show(p.eval(act[1])))
-                names = ({'x9': float('inf')} if nk == 'fresh' else (None if nk == 'none' else self.pers[nk]))
+                names = ({'x9': float('inf'), 'h9': 10 ** 5000} if nk == 'fresh' else (None if nk == 'none' else self.pers[nk]))
                 kw = {}
                 if act[3] is not None:
                     kw['max_ops_evaluated'] = act[3]
@@ -276,6 +293,12 @@ def _restore_module_state():
             for k, v in list(vars(mod).items()):
                 if callable(v) and hasattr(v, 'cache_clear'):
                     v.cache_clear()
+    if _MS0[0]:
+        for e in _MS0[0]:
+            if e[:2] == ('interpreter', 'int_max_str_digits'):
+                sys.set_int_max_str_digits(e[2])
+            elif e[:2] == ('interpreter', 'recursionlimit'):
+                sys.setrecursionlimit(e[2])
 
 
 def template():
